@@ -99,6 +99,49 @@ func init() {
 				rec = append(rec, [2]string{fn + ": " + st[0], st[1]})
 			}
 		}
+		// order of the steps of newSyncExecutor that matter for the reset: the executor must be built from
+		// db.syncState AFTER the pending-baseline block has reset it.
+		var order []string
+		if fd, err := p.funcDecl("DB", "newSyncExecutor"); err == nil {
+			ast.Inspect(fd.Body, func(n ast.Node) bool {
+				switch x := n.(type) {
+				case *ast.CallExpr:
+					if sel, ok := x.Fun.(*ast.SelectorExpr); ok {
+						switch sel.Sel.Name {
+						case "init":
+							order = append(order, "init")
+						case "checkDatabaseBehindReplica":
+							order = append(order, "baseline")
+						case "Pos":
+							order = append(order, "pos")
+						}
+					}
+				case *ast.AssignStmt:
+					for _, l := range x.Lhs {
+						if norm(c.src(l)) == "db.syncState" {
+							order = append(order, "reset-state")
+						}
+					}
+				case *ast.CompositeLit:
+					if id, ok := x.Type.(*ast.Ident); ok && id.Name == "syncExecutor" {
+						for _, e := range x.Elts {
+							if kv, ok := e.(*ast.KeyValueExpr); ok && norm(c.src(kv.Key)) == "state" {
+								order = append(order, "build-executor(state: "+norm(c.src(kv.Value))+")")
+							}
+						}
+					}
+				}
+				return true
+			})
+		}
+		sb.WriteString("/-- newSyncExecutor: the order of init, baseline re-establishment, state reset, position read and executor construction -/\ndef executorOrder : List String := [")
+		for i, o := range order {
+			if i > 0 {
+				sb.WriteString(", ")
+			}
+			fmt.Fprintf(&sb, "%q", o)
+		}
+		sb.WriteString("]\n\n")
 		sb.WriteString("/-- (function: call, guard) — where the baseline is (re-)established from the replica and where the pending flag is set and cleared -/\ndef recovery : List (String × String) := " + leanStrPairs(rec) + "\n\nend Litestream.Gen.StateWrites\n")
 		return sb.String(), nil
 	}
